@@ -111,6 +111,12 @@ def generate(seed, tier, idx=0):
             else:
                 payload = rng.choice([1, "x", [1, 2], 2.5, (1,)])
             probes.append([m, payload, rng.random() < 0.75, rng.random() < 0.3])
+            if isinstance(payload, dict) and rng.random() < 0.25:
+                # the payload is a dict subclass whose [] invents values for absent keys
+                # (Counter, defaultdict): absent declared keys are still absent
+                probes[-1].append(rng.choice(["counter", "defaultdict_int", "defaultdict_str",
+                                              "missing_first_value"]))
+                continue
             if isinstance(payload, dict) and rng.random() < 0.3:
                 # a producer that reuses one payload dict: the SAME object, changed
                 # in place, is used for the same event type again
@@ -384,7 +390,25 @@ def check_metadata(case):
     prev = None
     for probe in copy.deepcopy(case["probes"]):      # (payloads are changed in place below)
         m, payload, check, timed = probe[:4]
-        if len(probe) > 4:
+        if len(probe) > 4 and probe[4] != "reuse":
+            import collections
+            kind = probe[4]
+            if kind == "counter":
+                payload = collections.Counter(payload) if all(
+                    isinstance(v, int) and not isinstance(v, bool) for v in payload.values()) \
+                    else collections.defaultdict(int, payload)
+            elif kind == "defaultdict_int":
+                payload = collections.defaultdict(int, payload)
+            elif kind == "defaultdict_str":
+                payload = collections.defaultdict(str, payload)
+            else:
+                first = next(iter(payload.values()), 0)
+
+                class _Inventing(dict):
+                    def __missing__(self, key):
+                        return first
+                payload = _Inventing(payload)
+        elif len(probe) > 4:
             # the previous payload object itself, changed in place
             if not isinstance(prev, dict):
                 continue
@@ -401,7 +425,7 @@ def check_metadata(case):
             exp = True
         else:
             exp = set(payload) == set(decl) and \
-                all(isinstance(payload[k], decl[k]) for k in decl)
+                all(isinstance(dict.get(payload, k), decl[k]) for k in decl)
         try:
             if timed:
                 ev = TimedEvent(3.5, META[m], payload, check)
@@ -410,7 +434,8 @@ def check_metadata(case):
                 ev = Event(META[m], payload, check)
                 ok_ts = True
             got = True
-            if ev.content is not payload or ev.event_type is not META[m] or not ok_ts:
+            if (ev.content is not payload and len(probe) <= 4) or ev.event_type is not META[m] \
+                    or not ok_ts:
                 return ("event-fields", "event built from %r does not carry its "
                         "payload / type / timestamp" % (payload,))
         except EventError:
